@@ -2,6 +2,7 @@ from typing import TYPE_CHECKING, Callable, Dict, List, NamedTuple, Optional, Se
 
 from django.template import Library
 from django.template.base import Parser, Token
+from django.utils.text import smart_split
 
 from django_components.app_settings import ContextBehaviorType, app_settings
 from django_components.library import is_tag_protected, mark_protected_tags, register_tag
@@ -478,7 +479,13 @@ class ComponentRegistry:
         # the component name and passing the rest to the actual tag function.
         def tag_fn(parser: Parser, token: Token) -> ComponentNode:
             # Let the TagFormatter pre-process the tokens
-            bits = token.split_contents()
+            # NOTE: We split with `smart_split()` (whitespace outside of quotes) instead of
+            #       `token.split_contents()`. The latter additionally tries to glue together
+            #       translation strings `_("...")` that contain whitespace, which `smart_split()`
+            #       already keeps in one piece. And it calls `next()` on the exhausted iterator
+            #       (bare `StopIteration`) whenever a word starting with `_("` does not end
+            #       with `")`, e.g. `_("abc")|upper` or `[ _("abc"), 1 ]`.
+            bits = list(smart_split(token.contents))
             formatter = get_tag_formatter(registry)
             result = formatter.parse([*bits])
             start_tag = formatter.start_tag(result.component_name)
